@@ -13,6 +13,9 @@ CLAIMED = {
  "C09": ("DESIGN.md §4 C09",
          "Deductive proof (loop-free, hence complete) that mergeChanges preserves the fold: for every view consistent with a and b chaining on a, applying the merged event equals applying both; add;remove cancels, remove;add becomes replace, old values chain, LastSeedValue is or-ed, the newest value/time win.",
          "Kinds restricted to ADD/UPDATE/REPLACE/REMOVE (the ones that can occur). Not decided by this family: writers not waiting, eventual delivery, the 5 s send timeout (liveness/timing); DropExcess and mergeCollectionExcess step invariants are added in later revisions."),
+ "C17": ("DESIGN.md §4 C17",
+         "Deductive proof on the real pkg/group code, for every member count (including none), every outcome vector and every completion order (a universally quantified ghost sequence resp(members,k) constrained only by 'each member responds once'): ExecuteUpTo/All/Most/Any fail exactly when more than the budget / some / more than half / all members fail, results land at the member's own index, the error returned is the first observed, cancel is called as soon as the budget is exceeded and all responses are drained; ExecuteOne calls members in order until one succeeds (ghost call log); Fast/Race return the first success / first response; Execute never indexes out of range; executeEach's channel is buffered so no sender stays blocked after an early return.",
+         "executeEach's goroutines are outside the subset: that its channel delivers exactly one response per member and then closes (chanTotal, chanSeq == resp) is a trusted postcondition; its buffer capacity and freshness are proved. Members are assumed not to write memory the package reads. Real scheduling is represented by the quantified completion order."),
  "C18": ("DESIGN.md §4 C18",
          "Deductive proof, for all inputs, of function contracts on the real code: CompareAscending = sign of chronological order (+ strict-total-order lemma); the four cut CompareTo methods and compareValueCuts against the cut order; PeriodsIntersect/PeriodsConnected = share an instant / closures share an instant (+ soundness/completeness/symmetry lemmas); segment ActiveAt, MagnitudeAt, Duration, Max, MaxMagnitude, MaxAfter, Cut, Shift against the step-function reading (prefix sums cum), with loop invariants, termination, no-panic obligations and a checked frame (no argument is modified).",
          "Assumes valid timestamps/durations and total segment length <= 2^62 ns as preconditions; float magnitudes are {NaN,+-Inf,finite real} without rounding. Shift is specified structurally per case (the translation law follows by a stated, not machine-checked, induction over prefix sums). Sum/calcCuts and the modepb wrappers are not yet under contract in this revision."),
